@@ -37,6 +37,27 @@ LOG = []
 _classes = []
 
 
+BMODE = {"mode": None}
+
+
+def consume(relative_path):
+    """What a backend may do with the argument it was handed: use the list up while composing an address."""
+    m = BMODE["mode"]
+    if not isinstance(relative_path, list) or m is None:
+        return
+    if m == "append":
+        relative_path.append("leftover")
+    elif m == "clear":
+        relative_path.clear()
+    elif m == "reverse":
+        relative_path.reverse()
+        relative_path.insert(0, "x")
+    elif m == "pop":
+        while relative_path:
+            relative_path.pop(0)
+        relative_path.extend(["used", "up"])
+
+
 def backends_ready():
     """(Re-)establish the initial registry: scheme i -> recording class i."""
     from basyx.aas.backend import backends
@@ -46,11 +67,13 @@ def backends_ready():
                 class Rec(backends.Backend):
                     @classmethod
                     def commit_object(cls, committed_object, store_object, relative_path):
-                        LOG.append((1, i, store_object, committed_object, list(relative_path)))
+                        LOG.append((1, i, store_object, committed_object, list(relative_path)))   # as it is AT CALL TIME
+                        consume(relative_path)
 
                     @classmethod
                     def update_object(cls, updated_object, store_object, relative_path):
                         LOG.append((2, i, store_object, updated_object, list(relative_path)))
+                        consume(relative_path)
                 return Rec
             _classes.append(mk(i))
     for i, s in enumerate(SCHEMES):
@@ -117,7 +140,11 @@ def run_ops(tree, ops):
                 backends.get_backend(n["_o"].source)
             except Exception:
                 pass
+    BMODE["mode"] = None
     for op in ops:
+        if op[0] == "bmode":
+            BMODE["mode"] = op[1]          # not an operation of the SDK: how the recording backends treat their argument
+            continue
         if op[0] == "register":
             backends.register_backend(op[1], _classes[op[2]])
             current[op[1]] = op[2]
@@ -321,6 +348,11 @@ def gen_history(rng, tree, count, late):
     if len(ops) > 36:
         ops = rng.sample(ops, 36)
     ops = with_registrations(rng, ops, count, late)
+    if rng.random() < 0.5:
+        # the recording backends modify the relative_path list they receive (their own argument)
+        mode = rng.choice(["append", "clear", "reverse", "pop"])
+        ops.insert(rng.randint(0, min(3, len(ops))), ("bmode", mode))
+        count(f"backend-mutates-path={mode}")
     if rng.random() < 0.6:
         targets = [p for p, _, _ in rt.walk(cur)]
         for _ in range(rng.randint(1, 3)):
@@ -568,7 +600,8 @@ def finish(chk):
                            "during the calls: 0, forward, backward); in ~60% 1-3 edits of the live tree (mostly at the front "
                            "of a SubmodelElementList: insert(0), del [0], pop(0), setitem, reverse; add/remove_referable) "
                            "followed by calls on the nodes around the edit, the model evaluated on the tree as it is then; "
-                           "schemes: one letter, letter+digits/+/-/., upper case, 127 characters; non-trivial = >= 3 nodes and >= 1 source")
+                           "in ~50% of the random cases the recording backends mutate the relative_path list they are handed "
+                           "(append/clear/reverse/use up), the log keeps a copy taken on entry; schemes: one letter, letter+digits/+/-/., upper case, 127 characters; non-trivial = >= 3 nodes and >= 1 source")
 
 
 def replay(path):
